@@ -47,6 +47,8 @@ def plan(tier, seed):
     for ref in refs:
         for ch in range(48):
             jobs.append(("gen", ref, ch, 48, 1 if tier == "thorough" else 2, 3000))
+    for ch in range(16):
+        jobs.append(("multi", ch, 16, 2500))
     for src in ("assemble-0.2", "assemble-0.9", "assemble-1.0", "call", "call-exact"):
         jobs.append(("pipe", src, seed, 20000))
     jobs.sort(key=lambda j: -j[-1])
@@ -55,7 +57,7 @@ def plan(tier, seed):
 
 def run_job(job):
     env.quiet()
-    return {"gen": job_gen, "pipe": job_pipe}[job[0]](job)
+    return {"gen": job_gen, "pipe": job_pipe, "multi": job_multi}[job[0]](job)
 
 
 def run_atomize(path):
@@ -272,6 +274,58 @@ def job_gen(job):
                         if not r.samples and len(alts) == 2 and len(snv) >= 2 and layout == "ACP":
                             r.sample({"input_record": lines[len(lines) // 2], "atomize_lines": [l for l in out.splitlines() if not l.startswith("#")][2 * len(snv) * (len(lines) // 2) // 2:][:len(snv)]})
     r.sample({"generated": "REF=%s chunk %d/%d" % (ref, ch, nch), "records": r.evaluations}, cap=1)
+    return r
+
+
+def job_multi(job):
+    """multi-allelic sites: up to 4 bases per site in every first-appearance order (REF G/A/C..., 3 ALTs), mixed ploidy, ACP present"""
+    _, ch, nch, _ = job
+    r = Result()
+    payload = {"kind": "job", "job": job}
+    d = env.scratch_dir("c20m")
+    k = -1
+    for ref in ("GA", "AC", "TG"):
+        pool = [a + b for a in "ACGT" for b in "ACGT" if a + b != ref and (a != ref[0] or b == ref[1] or True)]
+        pool = [x for x in pool if x[0] != ref[0]][:9] + [ref[0] + b for b in "ACGT" if b != ref[1]][:2]
+        for alts in itertools.permutations(pool[:7], 3):
+            k += 1
+            if k % nch != ch:
+                continue
+            seqs = (ref,) + alts
+            nal = 4
+            lines = []
+            gts = [(0, 1), (2, 3), (1, 1), (3, None), (0, 2)]
+            gts3 = [(0, 1, 2), (3, 3, 1), (2, 2, None), (0, 0, 3)]
+            for g1 in gts:
+                for g2 in gts3:
+                    cols = []
+                    for g in (g1, g2):
+                        P = len(g)
+                        gs = sorted(a for a in g if a is not None) + [None] * sum(a is None for a in g)
+                        gt = "/".join("." if a is None else str(a) for a in gs)
+                        acp = [sum(1.0 for a in g if a == i) for i in range(nal)]
+                        miss = sum(a is None for a in g)
+                        acp = [x + miss / nal for x in acp]
+                        cols.append(":".join([gt, "30", ",".join(fmtf(x) for x in acp), "7,9"]))
+                    lines.append("chr1\t11\tm%d\t%s\t%s\t.\tPASS\tEND=12;SNVPOS=1,2\tGT:SQ:ACP:SNVDP\t%s\t%s" % (len(lines), ref, ",".join(alts), cols[0], cols[1]))
+            text = HDR + "\n".join(lines) + "\n"
+            p = os.path.join(str(d), "m.vcf")
+            with open(p, "w") as f:
+                f.write(text)
+            tagp = "multi|REF=%s|ALT=%s" % (ref, ",".join(alts))
+            r.evaluations += len(lines)
+            r.states += len(lines)
+            r.nontrivial += len(lines)
+            try:
+                out = run_atomize(p)
+            except Exception as e:  # noqa
+                r.violation("multi-exception|%s" % type(e).__name__, "atomize aborted: %s: %s (%s)" % (type(e).__name__, str(e)[:150], tagp), payload)
+                env.quiet()
+                continue
+            env.quiet()
+            compare(r, payload, tagp, text, out, "multi")
+            r.outcome((ref, alts))
+    r.sample({"multi_allelic": "REF in {GA, AC, TG}, every ordered triple of ALTs from a 7-string pool", "chunk": ch})
     return r
 
 
